@@ -54,9 +54,11 @@ Record fast_ok := mkFast { fo_padsize : N; fo_payload : bytes }.
 
 Definition e_fast_pad_no_room : N := 1.   (* first  "buffer is too small": padding bit set, len <= headerSize *)
 Definition e_fast_end_before  : N := 2.   (* second "buffer is too small": end < headerSize *)
+Definition e_fast_zero_padding : N := 3.  (* "invalid RTP padding": padding bit set, last byte 0 (added by the fix) *)
 
 (* payload = the whole datagram (after SRTP decryption when enabled); padding = header.Padding;
-   hs = headerSize, a Go int *)
+   hs = headerSize, a Go int.  This is the code after the fix "refuse a padding size of 0"; the function
+   as it was before (accepting it, unlike pion) and its theorems are in history/PreFix.v *)
 Definition fast_rtp_unmarshal (payload : bytes) (padding : bool) (hs : Z) : res fast_ok :=
   let n := hs in
   let end0 := Z.of_N (nlen payload) in
@@ -65,6 +67,7 @@ Definition fast_rtp_unmarshal (payload : bytes) (padding : bool) (hs : Z) : res 
     match znth payload (end0 - 1) with            (* buf[end-1] *)
     | None => Panic
     | Some ps =>
+      if ps =? 0 then Err e_fast_zero_padding else   (* if p.Header.PaddingSize == 0 { return nil, "invalid RTP padding" } *)
       let end1 := (end0 - Z.of_N ps)%Z in
       if (end1 <? n)%Z then Err e_fast_end_before else
       match zsub payload n end1 with               (* buf[n:end] *)
